@@ -10,6 +10,8 @@
   recorded contract `RyuLit`/`RyuOk`, and the tables.
 -/
 import JaqVerif.Lemmas.C07Congr
+import JaqVerif.Lemmas.C07Sort
+import JaqVerif.Lemmas.C07RfcNum
 
 namespace Jaq.C07
 
@@ -250,5 +252,131 @@ example : NonIntLit [0x31, 0x45, 0x2b, 0x32] := ⟨(numLex NumSt.init [0x31, 0x4
 example : NonIntLit [0x30, 0x65, 0x30] := ⟨(numLex NumSt.init [0x30, 0x65, 0x30]).2.2, by decide, by decide, by decide⟩
 example : NonIntLit [0x31, 0x30, 0x2e, 0x32, 0x35, 0x65, 0x2d, 0x33] :=
   ⟨(numLex NumSt.init [0x31, 0x30, 0x2e, 0x32, 0x35, 0x65, 0x2d, 0x33]).2.2, by decide, by decide, by decide⟩
+
+/-! ## Round 2
+
+### (1) the key hypothesis is about `v` itself; `cmp`, `==`, hashing do not see the round trip
+
+`RyuVal c` is the value half of the float printer's contract (`RyuOk.value`); `WfInts v` the type
+invariant of `Num::Int(isize)` (machine integers fit a machine word; the model's `Int` is unbounded).
+Proofs: `Lemmas/C07KeysNum.lean` (numbers: every representation change of `canonNum` — `Int`/`BigInt`,
+`Float f`/`Dec (ryu f)`, NaN payloads — is invisible to `Num::cmp`, `Num::eq`, `Num::hash`),
+`Lemmas/C07Keys.lean` (values, by induction on the fuel of `cmp`/`==`/`hash`), `Lemmas/C07Sort.lean`
+(`sort_keys`). -/
+
+/-- "Indistinguishable": without key sorting, the values read back compare (`Ord`), are `==`
+(`PartialEq`, incl. `IndexMap`'s hashed equality of objects), hash (`Hash`) and are found as keys
+(`IndexMap` probe) exactly like the originals — at every size and depth, NaN and ±0 included. -/
+theorem roundtrip_invisible_to_cmp_eq_hash (c : Cfg) (hc : RyuOk c) (pp : Pp) (hns : pp.sortKeys = false)
+    (a b : Val) (ha : WfInts a) (hb : WfInts b) :
+    Val.cmp (canon c pp a) (canon c pp b) = Val.cmp a b ∧
+    Val.eq (canon c pp a) (canon c pp b) = Val.eq a b ∧
+    Val.feed (canon c pp a) = Val.feed a ∧
+    Obj.sameKey (canon c pp a) (canon c pp b) = Obj.sameKey a b :=
+  ⟨cmp_canon c hc.value pp hns a b, eq_canon c hc.value pp hns a b ha hb, feed_canon c hc.value pp hns a ha,
+   sameKey_canon c hc.value pp hns a b ha hb⟩
+
+/-- The `IndexMap` invariant survives the round trip: if the keys of every object inside `v` are
+pairwise different, so are the keys of every object of the value read back (a float key that became
+a literal, an integer key that changed representation, NaN keys, keys that are arrays or objects). -/
+theorem keys_survive_roundtrip (c : Cfg) (hc : RyuOk c) (pp : Pp) (hns : pp.sortKeys = false) (v : Val)
+    (hw : WfInts v) (hk : KeysOk v) : KeysOk (canon c pp v) :=
+  keysOk_canon c hc.value pp hns v.size v (Nat.le_refl _) hw hk
+
+/-- **Print-then-parse with the hypotheses on `v` only** (replaces the hypothesis
+`KeysOk (canon c pp v)` of `parse_print_val` for every `Pp` without key sorting): -/
+theorem parse_print_val_keys (c : Cfg) (hc : RyuOk c) (pp : Pp) (hpp : pp.WsIndent) (hns : pp.sortKeys = false)
+    (v : Val) (hg : GoodVal v) (hw : WfInts v) (hk : KeysOk v) (w1 w2 : Bytes) (h1 : IsGap w1) (h2 : IsGap w2) :
+    parseSingle (w1 ++ (write c pp v ++ w2)) = some (canon c pp v) :=
+  parse_print_val c hc.literal pp hpp v hg (keys_survive_roundtrip c hc pp hns v hw hk) w1 w2 h1 h2
+
+/-- `tojson | fromjson` with the hypotheses on `v` only -/
+theorem tojson_fromjson_keys (c : Cfg) (hc : RyuOk c) (v : Val) (hg : GoodVal v) (hw : WfInts v) (hk : KeysOk v) :
+    parseSingle (write c Pp.compact v) = some (canon c Pp.compact v) :=
+  tojson_fromjson c hc.literal v hg (keys_survive_roundtrip c hc Pp.compact rfl v hw hk)
+
+/-- a non-trivial instance of the hypotheses: `{(1.5): null, (1): [1.5], "a": {}}` -/
+example : WfInts (.obj [(.num (.float 0x3ff8000000000000), .null), (.num (.int 1), .arr [.num (.float 0x3ff8000000000000)]),
+    (.tstr [97], .obj [])]) := by decide
+
+/-- **"Same printed form" for every `Pp`, key sorting included** (completes
+`print_canon_same_partial`).  With `sort_keys` the hypothesis `SortDom v` asks of every object
+inside `v`: its keys contain no objects (`flatKeys`), and are pairwise strictly ordered by `Ord`
+consistently in both directions (`strictKeys`: `k < k'` and `k' > k`, or the converse) — what
+C08's `val_order` (antisymmetry) and `WfKeys` give for NaN-free keys.  PARTIAL in this respect: keys
+that contain objects are not covered (needs that `Ord` does not see the insertion order of nested
+objects, C08 `obj_eq_insertion_order_irrelevant`, for the shared `Val.cmp`). -/
+theorem print_canon_same_sorted_partial (c : Cfg) (hc : RyuOk c) (pp : Pp) (hs : pp.sortKeys = true) (v : Val)
+    (hd : SortDom v) : write c pp (canon c pp v) = write c pp v :=
+  writeVal_canon_sorted c hc.value pp hs v.size v (Nat.le_refl _) hd 0
+
+/-- both cases together -/
+theorem print_canon_same (c : Cfg) (hc : RyuOk c) (pp : Pp) (v : Val) (hd : pp.sortKeys = true → SortDom v) :
+    write c pp (canon c pp v) = write c pp v := by
+  cases hs : pp.sortKeys with
+  | false => exact print_canon_same_partial c pp hs v
+  | true => exact print_canon_same_sorted_partial c hc pp hs v (hd hs)
+
+/-- **Print-then-parse with `sort_keys`, hypotheses on `v` only**: under `SortDom v` (see above)
+the keys of the value read back are pairwise different, so `parse_print_val` needs no hypothesis
+about `canon c pp v`.  PARTIAL in the same respect as `print_canon_same_sorted_partial` (keys that
+contain objects). -/
+theorem parse_print_val_sorted_partial (c : Cfg) (hc : RyuOk c) (pp : Pp) (hpp : pp.WsIndent) (hs : pp.sortKeys = true)
+    (v : Val) (hg : GoodVal v) (hd : SortDom v) (w1 w2 : Bytes) (h1 : IsGap w1) (h2 : IsGap w2) :
+    parseSingle (w1 ++ (write c pp v ++ w2)) = some (canon c pp v) :=
+  parse_print_val c hc.literal pp hpp v hg (keysOk_canon_sorted c hc.value pp hs v.size v (Nat.le_refl _) hd) w1 w2 h1 h2
+
+/-- every `Pp`: the hypotheses are about `v` -/
+theorem parse_print_val_any_pp (c : Cfg) (hc : RyuOk c) (pp : Pp) (hpp : pp.WsIndent) (v : Val) (hg : GoodVal v)
+    (hu : pp.sortKeys = false → WfInts v ∧ KeysOk v) (hd : pp.sortKeys = true → SortDom v)
+    (w1 w2 : Bytes) (h1 : IsGap w1) (h2 : IsGap w2) :
+    parseSingle (w1 ++ (write c pp v ++ w2)) = some (canon c pp v) := by
+  cases hs : pp.sortKeys with
+  | false => exact parse_print_val_keys c hc pp hpp hs v hg (hu hs).1 (hu hs).2 w1 w2 h1 h2
+  | true => exact parse_print_val_sorted_partial c hc pp hpp hs v hg (hd hs) w1 w2 h1 h2
+
+/-- a non-trivial instance of `SortDom`: `{"b": 1, (1.5): {"z": 0, "a": 0}, (1): 2, [1,"x"]: 3}` -/
+example : SortDom (.obj [(.tstr [98], .num (.int 1)),
+    (.num (.float 0x3ff8000000000000), .obj [(.tstr [122], .num (.int 0)), (.tstr [97], .num (.int 0))]),
+    (.num (.int 1), .num (.int 2)), (.arr [.num (.int 1), .tstr [120]], .num (.int 3))]) := by
+  unfold SortDom; decide
+
+/-! ### (3) RFC 8259 with an independent rendering of the grammar
+
+`Lemmas/C07RfcNum.lean`: `RfcNumber` = `[ minus ] int [ frac ] [ exp ]` with `int = zero / digit1-9 *DIGIT`,
+`frac = "." 1*DIGIT`, `exp = ("e"/"E") ["-"/"+"] 1*DIGIT`, spelled with byte ranges only (no function of
+the reader or writer); `RfcIntNumber i t` (no fraction, no exponent, exact value `i`),
+`RfcNonIntNumber t` (a fraction or an exponent); `RfcSpelling j s` = `s` is a `value` of RFC 8259 §2–§7
+denoting `j` (keywords and structural bytes as literals, `RfcWs` at every position where the grammar has
+`ws`, strings as `Body`); `RfcText s` = `ws value ws`. -/
+
+/-- every RFC 8259 number with a fraction or an exponent is a complete literal of the reader's
+lexer (what `parse_rfc_spelling_partial` assumed as `NonIntLit`), and every RFC number without is
+the decimal text of its value, or `-0` -/
+theorem rfc_number_is_reader_literal (t : Bytes) :
+    (RfcNonIntNumber t → NonIntLit t) ∧ (∀ i, RfcIntNumber i t → t = intText i ∨ (i = 0 ∧ t = [0x2d, 0x30])) := by
+  refine ⟨rfcNonIntNumber_nonInt t, fun i h => ?_⟩
+  have := rfcNumber_int i t h
+  simpa [Spelling] using this
+
+/-- **RFC 8259 texts mean what the RFC says** (replaces `parse_rfc_spelling_partial`: no part of the
+statement refers to the reader's lexer any more). -/
+theorem parse_rfc_spelling (j : JVal) (s w1 w2 : Bytes) (h : RfcSpelling j s) (h1 : RfcWs w1) (h2 : RfcWs w2) :
+    parseSingle (w1 ++ (s ++ w2)) = some (embed j) :=
+  parse_rfc_text j s w1 w2 h (rfcWs_ws h1) (rfcWs_ws h2)
+
+/-- **every RFC 8259 text whose strings denote Unicode scalar values is accepted**, and denotes the
+`embed` of the abstract value it spells -/
+theorem rfc_text_is_accepted (s : Bytes) (h : RfcText s) :
+    ∃ j, RfcTextOf j s ∧ parseSingle s = some (embed j) := rfc_text_value s h
+
+-- ` [1, null]\n` is an RFC text
+example : RfcText [0x20, 0x5b, 0x31, 0x2c, 0x20, 0x6e, 0x75, 0x6c, 0x6c, 0x5d, 0x0a] := by
+  refine ⟨.arr [.int 1, .null], [0x20], [0x5b, 0x31, 0x2c, 0x20, 0x6e, 0x75, 0x6c, 0x6c, 0x5d], [0x0a], by decide, by decide, ?_, rfl⟩
+  simp only [RfcSpelling, RfcSpellingList]
+  exact ⟨[], _, by decide,
+    ⟨[0x31], [], ⟨[], [0x31], ⟨Or.inl rfl, Or.inr ⟨0x31, [], rfl, by decide, by decide, by decide⟩, Or.inl rfl, Or.inl rfl⟩,
+        rfl, by decide⟩, by decide,
+      Or.inr ⟨by simp, [0x20], _, by decide, ⟨[0x6e, 0x75, 0x6c, 0x6c], [], rfl, by decide, Or.inl ⟨trivial, rfl⟩⟩, rfl⟩⟩, rfl⟩
 
 end Jaq.C07
